@@ -246,10 +246,18 @@ def replay(path, seed):
     rep = Report(PROP, 'quick', seed, 'model_checking')
     with open(path) as f:
         r = json.load(f)['replay']
-    c = r['config']
+    c = r.get('config', {})
     if c.get('norm') == 'inf':
         c['norm'] = np.inf
-    lims = r['limits']
+    lims = r.get('limits')
+    if 'case' in r and 'config' not in r:
+        # dimension-adaptive loop (DimAdaptiveTrace.tla): the whole family is re-run, it is small
+        from harness.drivers import dimadaptive_pipeline
+        dimadaptive_pipeline.run_all(rep, 'quick', seed)
+        rep.count(1, key='a')
+        rep.count(1, key='b')
+        return rep.finish()
+    c = r['config']
     if c['strategy'] in ('standard', 'dimadaptive'):
         traces = [t for t in standard_traces(rep, 'thorough')]
     else:
@@ -263,29 +271,5 @@ def replay(path, seed):
     rep.count(1, key='a')
     rep.count(1, key='b')
     rep.sample({'replayed': path})
-    # stops caused by the compute-time limit (the third stopping criterion): the reported value must be a combination there too
-    for c in configs(tier)[: (4 if tier == 'quick' else 100)]:
-        name = '%s D=%d (%d,%d) %s' % (c['strategy'], c['D'], c['lmin'], c['lmax'], c['func'])
-        for mt in ((1e-9, 0.05) if tier == 'quick' else (1e-9, 0.02, 0.1, 0.4)):
-            lims = {'tol': -1.0, 'min': 1, 'max': 3000}
-            try:
-                S, rec, ret = DP.run_once(c, lims, checks=True, max_time=mt)
-                ev = DP.ret_event(S, rec, ret, c, lims, with_c05=False)
-                ind = DP.independent_combination(S)
-                pw = DP.points_and_weights_value(S)
-                ev['final_comb'] = DP.close(ret[3], ind)
-                ev['pw_same'] = DP.close(ret[3], pw, 1e-10)
-                ev['_pw'] = None if pw is None else [float(x) for x in pw]
-            except impl.Timeout:
-                rep.exclude('%s max_time=%g: timeout' % (name, mt))
-                continue
-            except Exception as ex:
-                rep.violation('C05_NoException', {'strategy': c['strategy'], 'exception': type(ex).__name__, 'max_time': True},
-                              {'config': str(c), 'max_time': mt, 'exception': repr(ex)}, what='%s with max_time=%g raised %r' % (name, mt, ex))
-                continue
-            tr = DP.to_trace(c, lims, rec.events + [ev], name + ' stopped by max_time=%g after %d evaluations' % (mt, len([e for e in rec.events if e['k'] == 'E'])))
-            tr['_sig'] = {'reeval_doubles': False, 'reeval_flag_doubles': False, 'max_time': True}
-            traces.append(tr)
-            rep.count(1, key=(name, 'max_time', mt))
     from harness.drivers.c13_driver import conclude
     return conclude(rep, traces, ('C05_',))
